@@ -74,6 +74,18 @@ type recorderPlugin struct{ r *Recorder }
 func (p *recorderPlugin) Name() string { return RecorderName }
 func (p *recorderPlugin) OnSessionOpen(ssn *framework.Session) {
 	r := p.r
+	// Two handlers, like a scheduler with predicates (may report Event.Err) in front of a queue
+	// plugin (keeps a ledger): the erroring one is registered FIRST, so that the ledger handler is
+	// called after a reported error — every handler gets every allocate and every deallocate.
+	ssn.AddEventHandler(&framework.EventHandler{
+		AllocateFunc: func(e *framework.Event) {
+			id := ParseID(string(e.Task.UID))
+			if r.ErrFor[id] {
+				e.Err = fmt.Errorf("scripted: allocate callback fails for t%d", id)
+			}
+		},
+		DeallocateFunc: func(e *framework.Event) {},
+	})
 	ssn.AddEventHandler(&framework.EventHandler{
 		AllocateFunc: func(e *framework.Event) {
 			j := ParseID(string(e.Task.Job)[3:])
@@ -83,9 +95,6 @@ func (p *recorderPlugin) OnSessionOpen(ssn *framework.Session) {
 			r.Share[j].Add(e.Task.Resreq)
 			id := ParseID(string(e.Task.UID))
 			r.Log = append(r.Log, [4]int64{1, id, StatusKey(e.Task.Status), NodeRef(e.Task.NodeName)})
-			if r.ErrFor[id] {
-				e.Err = fmt.Errorf("scripted: allocate callback fails for t%d", id)
-			}
 			if r.OnEvent != nil {
 				r.OnEvent(1, e.Task)
 			}
